@@ -138,6 +138,20 @@ func scanEstablishesNoNil(p *prover, el ssa.Value, at ssa.Instruction) (bool, st
 					// nn==1: "== nil"
 					return lit{key: "CUR", neg: nn != 1}, true
 				}
+			case *ssa.Call:
+				// the test made by a function: isNil(el[i]), or a predicate the caller handed in and that is known,
+				// at the call being judged, to be such a function
+				if len(x.Call.Args) == 1 && !x.Call.IsInvoke() && isCur(x.Call.Args[0]) {
+					f := x.Call.StaticCallee()
+					if f == nil {
+						if par, isPar := x.Call.Value.(*ssa.Parameter); isPar {
+							f = scanFuncBindings[par]
+						}
+					}
+					if isNilForm, okP := nilPredicateFunc(f); okP {
+						return lit{key: "CUR", neg: !isNilForm}, true
+					}
+				}
 			case *ssa.Phi:
 				if x.Block() == H {
 					return lit{key: "F:" + p.canon(x)}, true
@@ -338,4 +352,24 @@ func scanEstablishesNoNil(p *prover, el ssa.Value, at ssa.Instruction) (bool, st
 		return true, fmt.Sprintf("by induction over the scan loop before %s: it visits every index, each trip tests its element (directly or through %d carried flag(s)), and the append is reached only after the last index with every flag false", c.Pos(at.Pos()), len(flags))
 	}
 	return false, why
+}
+
+// scanFuncBindings: while a helper is judged for one particular call of it, the function each of its
+// function-typed parameters is bound to at that call.
+var scanFuncBindings = map[*ssa.Parameter]*ssa.Function{}
+
+// nilPredicateFunc: f(e) returns exactly e == nil (isNilForm) or exactly e != nil.
+func nilPredicateFunc(f *ssa.Function) (isNilForm, ok bool) {
+	if f == nil || f.Blocks == nil || len(f.Params) != 1 || f.Signature.Results().Len() != 1 || !isBoolType(f.Signature.Results().At(0).Type()) {
+		return false, false
+	}
+	rets := returnsOf(f)
+	if len(rets) != 1 {
+		return false, false
+	}
+	e, nn, isT := nilTest(results(rets[0])[0])
+	if !isT || e != ssa.Value(f.Params[0]) {
+		return false, false
+	}
+	return nn == 1, true
 }
